@@ -545,32 +545,64 @@ package tree
 //@   ensures old(c.curr) == nil ==> c.curr == nil
 
 //@ func cursor.SeekLastLess
-//@   props C02
+//@   props C01 C02
 //@   noalloc
 //@   requires c != nil && treeOK(c.t) && c.gen <= c.t.gen
 //@   modifies c.curr, c.i, c.k, c.gen
 //@   ensures curOK(c) && posValid(c)
+//@   ghostinit stepped := false
+//@   ghostinit sok := false
+//@   ghostinit sk0 := k
+//@   after call seek[0]: ghost sok := callresult
+//@   after call seek[0]: ghost sk0 := c.k
+//@   after call Prev[0]: ghost stepped := true
+//@   ensures C01: sok ==> (stepped <==> c.t.compare(k, sk0) <= 0)
+//@   ensures C01: !sok ==> !stepped && c.curr == nil
 
 //@ func cursor.SeekLastLessOrEqual
-//@   props C02
+//@   props C01 C02
 //@   noalloc
 //@   requires c != nil && treeOK(c.t) && c.gen <= c.t.gen
 //@   modifies c.curr, c.i, c.k, c.gen
 //@   ensures curOK(c) && posValid(c)
+//@   ghostinit stepped := false
+//@   ghostinit sok := false
+//@   ghostinit sk0 := k
+//@   after call seek[0]: ghost sok := callresult
+//@   after call seek[0]: ghost sk0 := c.k
+//@   after call Prev[0]: ghost stepped := true
+//@   ensures C01: sok ==> (stepped <==> c.t.compare(k, sk0) < 0)
+//@   ensures C01: !sok ==> !stepped && c.curr == nil
 
 //@ func cursor.SeekFirstGreaterOrEqual
-//@   props C02
+//@   props C01 C02
 //@   noalloc
 //@   requires c != nil && treeOK(c.t) && c.gen <= c.t.gen
 //@   modifies c.curr, c.i, c.k, c.gen
 //@   ensures curOK(c) && posValid(c)
+//@   ghostinit stepped := false
+//@   ghostinit sok := false
+//@   ghostinit sk0 := k
+//@   after call seek[0]: ghost sok := callresult
+//@   after call seek[0]: ghost sk0 := c.k
+//@   after call Next[0]: ghost stepped := true
+//@   ensures C01: sok ==> (stepped <==> c.t.compare(k, sk0) > 0)
+//@   ensures C01: !sok ==> !stepped && c.curr == nil
 
 //@ func cursor.SeekFirstGreater
-//@   props C02
+//@   props C01 C02
 //@   noalloc
 //@   requires c != nil && treeOK(c.t) && c.gen <= c.t.gen
 //@   modifies c.curr, c.i, c.k, c.gen
 //@   ensures curOK(c) && posValid(c)
+//@   ghostinit stepped := false
+//@   ghostinit sok := false
+//@   ghostinit sk0 := k
+//@   after call seek[0]: ghost sok := callresult
+//@   after call seek[0]: ghost sk0 := c.k
+//@   after call Next[0]: ghost stepped := true
+//@   ensures C01: sok ==> (stepped <==> c.t.compare(k, sk0) >= 0)
+//@   ensures C01: !sok ==> !stepped && c.curr == nil
 
 //@ func cursor.refind
 //@   props C02
@@ -681,20 +713,34 @@ func verifClientIterateWhileMutating[K any, V any](c *cursor[K, V], k1 K, k2 K, 
 //@ pred rangeIt(t, it) = curOK(&it.c) && posValid(&it.c) && it.c.t == t
 
 //@ func btree.Range
-//@   props C02
+//@   props C01 C02
 //@   requires treeOK(t)
 //@   panics when lower.type_ < 1 || lower.type_ > 3 || upper.type_ < 1 || upper.type_ > 3
 //@   ensures fresh(result)
 //@   ensures upper.type_ == 3 ==> dyntype(result) == typeof("tree.forwardIterator") && rangeIt(t, result.(*forwardIterator[K, V]))
 //@   ensures upper.type_ != 3 ==> dyntype(result) == typeof("iterator.whileIterator") && (let w = result.(*iterator.whileIterator[KVPair[K, V]]) in !w.done && dyntype(w.inner) == typeof("tree.forwardIterator") && rangeIt(t, w.inner.(*forwardIterator[K, V])))
+//@   ensures C01: upper.type_ == 1 ==> (let w = result.(*iterator.whileIterator[KVPair[K, V]]) in forall p KVPair[K, V] {w.f(p)} :: w.f(p) <==> t.compare(p.Key, upper.key) <= 0)
+//@   ensures C01: upper.type_ == 2 ==> (let w = result.(*iterator.whileIterator[KVPair[K, V]]) in forall p KVPair[K, V] {w.f(p)} :: w.f(p) <==> t.compare(p.Key, upper.key) < 0)
+//@   ghostinit sk := 0
+//@   after call SeekFirst[0]: ghost sk := 3
+//@   after call SeekFirstGreaterOrEqual[0]: ghost sk := 1
+//@   after call SeekFirstGreater[0]: ghost sk := 2
+//@   ensures C01: sk == lower.type_
 
 //@ func btree.RangeReverse
-//@   props C02
+//@   props C01 C02
 //@   requires treeOK(t)
 //@   panics when lower.type_ < 1 || lower.type_ > 3 || upper.type_ < 1 || upper.type_ > 3
 //@   ensures fresh(result)
 //@   ensures lower.type_ == 3 ==> dyntype(result) == typeof("tree.backwardIterator") && rangeIt(t, result.(*backwardIterator[K, V]))
 //@   ensures lower.type_ != 3 ==> dyntype(result) == typeof("iterator.whileIterator") && (let w = result.(*iterator.whileIterator[KVPair[K, V]]) in !w.done && dyntype(w.inner) == typeof("tree.backwardIterator") && rangeIt(t, w.inner.(*backwardIterator[K, V])))
+//@   ensures C01: lower.type_ == 1 ==> (let w = result.(*iterator.whileIterator[KVPair[K, V]]) in forall p KVPair[K, V] {w.f(p)} :: w.f(p) <==> t.compare(p.Key, lower.key) >= 0)
+//@   ensures C01: lower.type_ == 2 ==> (let w = result.(*iterator.whileIterator[KVPair[K, V]]) in forall p KVPair[K, V] {w.f(p)} :: w.f(p) <==> t.compare(p.Key, lower.key) > 0)
+//@   ghostinit sk := 0
+//@   after call SeekLast[0]: ghost sk := 3
+//@   after call SeekLastLessOrEqual[0]: ghost sk := 1
+//@   after call SeekLastLess[0]: ghost sk := 2
+//@   ensures C01: sk == upper.type_
 
 // ---- exported wrappers (C01): Map and Set delegate to the shared tree; the ideal map is (t.root.sub, t.val, t.size) ----
 
